@@ -183,6 +183,14 @@ def shard_commented(sh):
         for off in pts:
             for cm in (b'/* c */ ', b'# c\n', b''):
                 buf.append((base, insert(base, off, cm + it)))
+        # a comment between any two tokens of the item itself (in its head: name, title, '=', '+=', '(' - or in its body)
+        if b'"' not in it and b"'" not in it:
+            words = it.split(b' ')
+            for k in range(1, len(words)):
+                for cm in (b'/* c */', b'# c\n', b'//\n'):
+                    inner = b' '.join(words[:k]) + b' ' + cm + b' ' + b' '.join(words[k:])
+                    for off in (pts[0], pts[-1]) if len(pts) > 1 else pts:
+                        buf.append((base, insert(base, off, inner)))
         if len(buf) >= 200:
             run(st, drv, buf, annotated=True)
             buf = []
